@@ -1,4 +1,9 @@
-"""C16 engine extension: constants imported from another repo module.
+"""C16 engine extensions (all trusted, listed in props/C16.py TRUSTED):
+  1. install(): constants imported from another repo module; tuple(seq) of symbolic length   (opt-in, C16 contracts only)
+  2. ref_attr hook: reading `Configuration.selections` (property with a setter) = the private list + class invariant
+  3. LIBSPEC random.choices(population, k=K)
+
+1. constants imported from another repo module.
 
 `from biogeme.configuration import SEPARATOR` made the name evaluate to the opaque python value
 ('modglobal', module, name); any use (`SEPARATOR in name`, `s.split(SEPARATOR)`) then crashed
